@@ -598,7 +598,15 @@ class Interp:
             c = self.expr(st.test, body_env, fi)
             self._refine(c, True, body_env)
         body_env.pop("@jumped", None)
+        nrets = len(rets)
         self.block(st.body, body_env, fi, rets)
+        # values returned/yielded from inside the body saw the loop-carried
+        # variables as they were at the start of an iteration
+        for i in range(nrets, len(rets)):
+            kk, vv = rets[i]
+            for w, pv in pre.items():
+                vv = subst(vv, ("lv", w, lid), pv)
+            rets[i] = (kk, vv)
         # environments that left the iteration early (continue) rejoin here
         ends = []
         if body_env.get("@live", True):
